@@ -18,345 +18,93 @@ func isNilConst(v ssa.Value) bool {
 }
 
 func checkC04(c *Ctx, r *Report) {
-	r.Explanation = "Decided (contract clauses of io.Writer/hash.Hash, by shape): (1) L-RET: every return of (*SM3).Write yields (len(data), nil) as symbolic values; (2) Sum never has its receiver in a may-write position (effect analysis) and returns a slice of length len(in)+32; (3) Reset stores every field that Write/checkSum/cf read (x excepted: its stale content is masked by nx); (4) SumSM3 performs Reset; Write; checkSum like New+Write+Sum; (5) PAD-SPLIT: in checkSum the two-block padding path is taken exactly when fewer than 8 bytes are left after the 0x80 byte, and the zero fill on each path lands the buffered count on 56 (interval evaluation of the branch condition and of the slice bounds over the invariant range of nx); (6) New returns a freshly allocated, Reset value. NOT decided: digest values (compression function), and that Write maintains 0 <= nx < 64 beyond the shape checked here."
-	r.Trusted = []string{"go/ssa", "summary of Write used by PAD-SPLIT: it adds len(data) to the buffered count modulo 64 (its own code is checked for the return contract only)", "GB/T 32905 padding rule"}
+	r.Explanation = "Decided by an inductive argument over histories, each step by interpretation of the function in the stream domain (symbolic lengths, buffer contents resolved from the effect log, loops over the input accelerated with an inductive step, every comparison decided by the LP over the path condition; the compression function cf is a black box that consumes one 64-byte block and advances a chaining value). Invariant Inv(s,S): s.x[0:s.nx] are the last |S| mod 64 bytes of the stream S written since Reset, 0 <= s.nx <= 63, s.len = |S|, s.h is the chaining value after the whole blocks of S. (1) RESET-STATE: Reset (and New on a fresh value) establishes Inv(s, empty) with the standard initial value. (2) WRITE-INVARIANT / WRITE-RESULT: from Inv(s,S), on every path Write(data) compresses the 64-byte blocks of pending || data in stream order exactly once on the receiver's chaining value, keeps the unprocessed tail in x[0:nx'] with 0 <= nx' <= 63, adds len(data) to len, writes nothing else, and returns (len(data), nil): Inv(s, S || data). (3) SUM-PADDING / SUM-RESULT / SUM-RECEIVER-UNCHANGED: from Inv(s,S), Sum(in) compresses on a copy of the chaining value exactly pending || 0x80 || 0^z || be64(8*len) (one block when nx <= 55, two otherwise), returns in followed by the big-endian words of the resulting chaining value, and leaves every field of the receiver as it was, so the history can continue. (4) ONE-SHOT: SumSM3(data) compresses from the standard initial value the blocks of data in order, then tail || 0x80 || zeros || be64(8*len(data)), and returns the words of the final chaining value. Together: every Write/Sum/Reset history yields in || H(pad(S)) where H iterates cf from the standard IV. NOT decided: that cf is the GB/T 32905 compression function (round constants are checked under C18; the round function itself is not), and overflow of the 64-bit byte counter."
+	r.Trusted = []string{"go/ssa", "the LP decision procedure for path conditions (exact rational simplex with integer rounding)", "cf(block) reads exactly block[0:64] and changes only the receiver's chaining value (its own slice bounds are obligations here; its round function is not decided)", "GB/T 32905 padding rule and initial value", "encoding/binary.BigEndian.PutUint32/PutUint64 store the big-endian bytes of their argument"}
 	p, err := LoadRepo(c.Repo, "amd64")
 	if err != nil {
 		r.Fatalf("%v", err)
 		return
 	}
-	// (1) Write
-	if fn := p.MustFunc(r, "sm3.(*SM3).Write"); fn != nil {
-		env := NewLinEnv(p, fn)
-		want := linTerm("len("+fn.Params[1].Name()+")", true)
-		nret := 0
-		for _, b := range fn.Blocks {
-			for _, in := range b.Instrs {
-				ret, ok := in.(*ssa.Return)
-				if !ok {
-					continue
-				}
-				nret++
-				key := fmt.Sprintf("sm3.(*SM3).Write return#%d", nret)
-				got := env.Int(retVals(ret)[0])
-				r.Check(got.Equal(want), "L-RET", key+" n", p.InstrPos(ret), "first result is "+got.String()+", contract is len(data)")
-				r.Check(isNilConst(retVals(ret)[1]), "L-RET", key+" err", p.InstrPos(ret), "second result is the nil constant")
-			}
-		}
-		r.Count("write_returns", nret)
-	}
-	// (2) Sum: pure + append length
-	e := NewEffects(p, map[string]map[int]bool{})
-	e.Run()
-	if fn := p.MustFunc(r, "sm3.(*SM3).Sum"); fn != nil {
-		sum := e.sum[fn]
-		var chain []string
-		for _, s := range sum.paramSites[0] {
-			chain = append(chain, siteChain(p, s))
-		}
-		r.Check(!sum.writesParam[0], "RECEIVER-WRITE", "sm3.(*SM3).Sum", p.Pos(fn.Pos()), "Sum works on a copy: receiver never in a may-write position"+ifs(sum.writesParam[0], ": "+strings.Join(chain, "; ")))
-		env := NewLinEnv(p, fn)
-		env.lenSum = func(c2 *ssa.Function, call2 *ssa.Call, en *LinEnv) ([]*Lin, bool) {
-			return retLenSummary(p, c2, 0, call2, en, 0)
-		}
-		want := linTerm("len("+fn.Params[1].Name()+")", true).Add(linConst(32))
-		for _, b := range fn.Blocks {
-			for _, in := range b.Instrs {
-				ret, ok := in.(*ssa.Return)
-				if !ok {
-					continue
-				}
-				ls, ok := env.Len(retVals(ret)[0])
-				good := ok && len(ls) > 0
-				var ss []string
-				for _, l := range ls {
-					ss = append(ss, l.String())
-					if !l.Equal(want) {
-						good = false
-					}
-				}
-				r.Check(good, "L-RET", "sm3.(*SM3).Sum result length", p.InstrPos(ret), "length set {"+strings.Join(ss, ", ")+"}, contract len(in)+32")
-				// prefix: the result must be built by append on `in`
-				isAppend := false
-				if call, ok := retVals(ret)[0].(*ssa.Call); ok {
-					if b, ok := call.Call.Value.(*ssa.Builtin); ok && b.Name() == "append" && call.Call.Args[0] == ssa.Value(fn.Params[1]) {
-						isAppend = true
-					}
-				}
-				r.Check(isAppend, "APPEND-PREFIX", "sm3.(*SM3).Sum", p.InstrPos(ret), "result is append(in, ...): in is the prefix of the result on both capacity paths")
-			}
-		}
-	}
-	// (3) Reset completeness
-	c04Reset(r, p)
-	// (4) SumSM3 sequence
-	if fn := p.MustFunc(r, "sm3.SumSM3"); fn != nil {
-		var seq []string
-		for _, b := range fn.Blocks {
-			for _, in := range b.Instrs {
-				if call, ok := in.(*ssa.Call); ok {
-					if cal := call.Call.StaticCallee(); cal != nil && cal.Pkg != nil && shortPkg(cal.Pkg.Pkg.Path()) == "sm3" {
-						seq = append(seq, cal.Name())
-					}
-				}
-			}
-		}
-		r.Check(strings.Join(seq, ",") == "Reset,Write,checkSum", "ONE-SHOT-SEQUENCE", "sm3.SumSM3", p.Pos(fn.Pos()), "calls "+strings.Join(seq, ",")+" (same as New; Write; Sum)")
-	}
-	// (6) New: fresh + Reset
-	if fn := p.MustFunc(r, "sm3.New"); fn != nil {
-		hasReset := false
-		for _, b := range fn.Blocks {
-			for _, in := range b.Instrs {
-				if call, ok := in.(*ssa.Call); ok {
-					if cal := call.Call.StaticCallee(); cal != nil && cal.Name() == "Reset" {
-						if _, isAlloc := call.Call.Args[0].(*ssa.Alloc); isAlloc {
-							hasReset = true
-						}
-					}
-				}
-			}
-		}
-		r.Check(hasReset, "ONE-SHOT-SEQUENCE", "sm3.New resets the fresh value", p.Pos(fn.Pos()), "New = new(SM3); Reset")
-	}
-	// (5) PAD-SPLIT
-	c04PadSplit(r, p)
-	r.Floor("write_returns", 1)
-	r.Floor("sm3_fields", 4)
+	c04ResetNew(r, p)
+	c04WriteInvariant(r, p)
+	c04Sum(r, p)
+	c04OneShot(r, p)
+	c04CfContract(r, p)
+	r.Floor("write_outcomes", 6)
+	r.Floor("sum_outcomes", 2)
+	r.Floor("oneshot_outcomes", 4)
+	r.Floor("stream_obligations", 100)
 }
 
-func c04Reset(r *Report, p *Prog) {
-	fieldOf := func(v ssa.Value, recv *ssa.Parameter) (string, ssa.Value) {
-		// returns the SM3 field an address belongs to, and the index value if it is an element of an array field
-		var idx ssa.Value
-		for i := 0; i < 10; i++ {
-			switch x := v.(type) {
-			case *ssa.IndexAddr:
-				idx = x.Index
-				v = x.X
-			case *ssa.Slice:
-				v = x.X
-			case *ssa.FieldAddr:
-				if x.X == ssa.Value(recv) {
-					st := recv.Type().Underlying().(*types.Pointer).Elem().Underlying().(*types.Struct)
-					return st.Field(x.Field).Name(), idx
-				}
-				v = x.X
-			default:
-				return "", nil
-			}
-		}
-		return "", nil
+// c04CfContract: the compression function is used as a black box (block, chaining value) -> chaining value. That view is
+// justified structurally: cf and its callees touch no field of the receiver other than h, and never write the block.
+func c04CfContract(r *Report, p *Prog) {
+	fn := p.MustFunc(r, "sm3.(*SM3).cf")
+	if fn == nil {
+		return
 	}
-	reads := map[string]bool{}
-	for _, name := range []string{"sm3.(*SM3).Write", "sm3.(*SM3).checkSum", "sm3.(*SM3).cf"} {
-		fn := p.MustFunc(r, name)
-		if fn == nil {
+	pos := p.Pos(fn.Pos())
+	e := NewEffects(p, map[string]map[int]bool{})
+	e.Run()
+	if sum := e.sum[fn]; sum != nil && len(fn.Params) == 2 {
+		r.Check(!sum.writesParam[1], "CF-CONTRACT", "sm3.(*SM3).cf does not write its block", pos, "the block parameter is never in a may-write position (effect analysis over cf and its callees)")
+	} else {
+		r.Viol("CF-CONTRACT", "sm3.(*SM3).cf does not write its block", pos, "no effect summary for cf")
+	}
+	var bad []string
+	fields := map[string]bool{}
+	seen := map[*ssa.Function]bool{}
+	var walk func(f *ssa.Function, recv map[ssa.Value]bool)
+	walk = func(f *ssa.Function, recv map[ssa.Value]bool) {
+		if seen[f] {
 			return
 		}
-		recv := fn.Params[0]
-		for _, b := range fn.Blocks {
+		seen[f] = true
+		for _, b := range f.Blocks {
 			for _, in := range b.Instrs {
 				switch x := in.(type) {
-				case *ssa.UnOp:
-					if x.Op == token.MUL {
-						if f, _ := fieldOf(x.X, recv); f != "" {
-							reads[f] = true
+				case *ssa.FieldAddr:
+					if recv[x.X] {
+						name := x.X.Type().Underlying().(*types.Pointer).Elem().Underlying().(*types.Struct).Field(x.Field).Name()
+						fields[name] = true
+						if name != "h" {
+							bad = append(bad, fmt.Sprintf("field %s of the hash state is accessed at %s", name, p.InstrPos(x)))
 						}
 					}
 				case *ssa.Call:
-					for _, a := range x.Call.Args {
-						if f, _ := fieldOf(a, recv); f != "" {
-							reads[f] = true
+					for i, a := range x.Call.Args {
+						if !recv[a] {
+							continue
+						}
+						cal := x.Call.StaticCallee()
+						if cal == nil || len(cal.Blocks) == 0 || i >= len(cal.Params) {
+							bad = append(bad, "the hash state is passed to an unknown callee at "+p.InstrPos(x))
+							continue
+						}
+						walk(cal, map[ssa.Value]bool{cal.Params[i]: true})
+					}
+				case *ssa.Store:
+					if recv[x.Val] {
+						bad = append(bad, "the hash state pointer is stored at "+p.InstrPos(x))
+					}
+				case *ssa.UnOp:
+					if recv[x.X] && x.Op == token.MUL {
+						bad = append(bad, "the whole hash state is copied at "+p.InstrPos(x))
+					}
+				case *ssa.Phi:
+					for _, ed := range x.Edges {
+						if recv[ed] {
+							recv[x] = true
 						}
 					}
-				case *ssa.Slice:
-					if f, _ := fieldOf(x, recv); f != "" {
-						reads[f] = true
-					}
 				}
 			}
 		}
 	}
-	fn := p.MustFunc(r, "sm3.(*SM3).Reset")
-	if fn == nil {
-		return
+	if len(fn.Params) > 0 {
+		walk(fn, map[ssa.Value]bool{fn.Params[0]: true})
 	}
-	recv := fn.Params[0]
-	writes := map[string]map[string]bool{}
-	for _, b := range fn.Blocks {
-		for _, in := range b.Instrs {
-			if st, ok := in.(*ssa.Store); ok {
-				if f, idx := fieldOf(st.Addr, recv); f != "" {
-					if writes[f] == nil {
-						writes[f] = map[string]bool{}
-					}
-					k := "*"
-					if idx != nil {
-						if c, ok := idx.(*ssa.Const); ok {
-							k = c.Value.String()
-						} else {
-							k = "?"
-						}
-					}
-					writes[f][k] = true
-				}
-			}
-		}
-	}
-	var names []string
-	for f := range reads {
-		names = append(names, f)
-	}
-	sort.Strings(names)
-	for _, f := range names {
-		r.Count("sm3_fields", 1)
-		key := "sm3.(*SM3).Reset re-initialises field " + f
-		if f == "x" {
-			r.Ok("RESET-COMPLETE", key, p.Pos(fn.Pos()), "exception: stale bytes of the block buffer are unobservable because nx = 0 bounds the valid prefix")
-			continue
-		}
-		ok := len(writes[f]) > 0
-		detail := fmt.Sprintf("stores: %v", keysOf(writes[f]))
-		if f == "h" {
-			for i := 0; i < 8; i++ {
-				if !writes[f][fmt.Sprint(i)] {
-					ok = false
-				}
-			}
-		}
-		r.Check(ok, "RESET-COMPLETE", key, p.Pos(fn.Pos()), detail)
-	}
+	sort.Strings(bad)
+	r.Check(len(bad) == 0 && fields["h"], "CF-CONTRACT", "sm3.(*SM3).cf depends on the chaining value only", pos, fmt.Sprintf("cf and its callees (%d functions) access no field of the hash state other than h", len(seen))+ifs(len(bad) > 0, ": "+strings.Join(firstN(bad, 3), "; ")))
 }
 
-// c04PadSplit decides the padding split of checkSum by evaluating its branch condition and fill lengths over nx in [1,64].
-func c04PadSplit(r *Report, p *Prog) {
-	fn := p.MustFunc(r, "sm3.(*SM3).checkSum")
-	if fn == nil {
-		return
-	}
-	env := NewLinEnv(p, fn)
-	recv := fn.Params[0]
-	nxKey := "*" + recv.Name() + ".nx"
-	var split *ssa.If
-	for _, b := range fn.Blocks {
-		iff, ok := b.Instrs[len(b.Instrs)-1].(*ssa.If)
-		if !ok {
-			continue
-		}
-		bo, ok := iff.Cond.(*ssa.BinOp)
-		if !ok {
-			continue
-		}
-		l := env.Int(bo.X).Sub(env.Int(bo.Y))
-		if len(l.T) == 1 && (l.T[nxKey] == 1 || l.T[nxKey] == -1) {
-			split = iff
-			break
-		}
-	}
-	key := "sm3.(*SM3).checkSum"
-	if split == nil {
-		r.Undecided("PAD-SPLIT", key, p.Pos(fn.Pos()), "no branch comparing the buffered count with a constant found")
-		return
-	}
-	pos := p.InstrPos(split)
-	bo := split.Cond.(*ssa.BinOp)
-	evalCond := func(v int64) bool {
-		x := env.Int(bo.X)
-		y := env.Int(bo.Y)
-		xv := x.C + x.T[nxKey]*v
-		yv := y.C + y.T[nxKey]*v
-		switch bo.Op {
-		case token.LSS:
-			return xv < yv
-		case token.LEQ:
-			return xv <= yv
-		case token.GTR:
-			return xv > yv
-		case token.GEQ:
-			return xv >= yv
-		case token.EQL:
-			return xv == yv
-		case token.NEQ:
-			return xv != yv
-		}
-		return false
-	}
-	// fill length on each arm: the argument of the Write call in that arm
-	fill := func(b *ssa.BasicBlock) *Lin {
-		for _, in := range b.Instrs {
-			if call, ok := in.(*ssa.Call); ok {
-				if cal := call.Call.StaticCallee(); cal != nil && cal.Name() == "Write" && len(call.Call.Args) == 2 {
-					if ls, ok := env.Len(call.Call.Args[1]); ok && len(ls) == 1 {
-						return ls[0]
-					}
-				}
-			}
-		}
-		return nil
-	}
-	blk := split.Block()
-	fT, fF := fill(blk.Succs[0]), fill(blk.Succs[1])
-	if fT == nil || fF == nil {
-		r.Undecided("PAD-SPLIT", key, pos, "cannot find the zero-fill Write on both arms of the split")
-		return
-	}
-	bad := ""
-	for v := int64(1); v <= 64; v++ { // buffered count after the 0x80 byte
-		takeT := evalCond(v)
-		f := fF
-		if takeT {
-			f = fT
-		}
-		n := f.C + f.T[nxKey]*v
-		if len(f.T) != 1 && !(len(f.T) == 0) {
-			bad = "fill length is not a function of the buffered count: " + f.String()
-			break
-		}
-		// standard: pad with zeros so that the count becomes 56 mod 64 with the least number of bytes: one block iff v <= 56
-		var want int64
-		if v <= 56 {
-			want = 56 - v
-		} else {
-			want = 64 - v + 56
-		}
-		if n != want {
-			bad = fmt.Sprintf("with %d bytes buffered after the 0x80 byte the code writes %d zero bytes, the standard padding needs %d (condition %s)", v, n, want, condString(split.Cond))
-			break
-		}
-	}
-	r.Check(bad == "", "PAD-SPLIT", key, pos, "for every buffered count 1..64 the zero fill is the minimal one landing on 56 mod 64"+ifs(bad != "", ": "+bad))
-	// the length field goes to x[56:64] and one final compression follows
-	okLen := false
-	okCf := false
-	for _, b := range fn.Blocks {
-		for _, in := range b.Instrs {
-			call, ok := in.(*ssa.Call)
-			if !ok {
-				continue
-			}
-			cal := call.Call.StaticCallee()
-			if cal == nil {
-				continue
-			}
-			if strings.HasSuffix(cal.String(), "bigEndian).PutUint64") {
-				if sl, ok := call.Call.Args[1].(*ssa.Slice); ok && sl.Low != nil {
-					lo := env.Int(sl.Low)
-					if lo.IsConst() && lo.C == 56 {
-						// value must be len << 3
-						v := env.Int(call.Call.Args[2])
-						if len(v.T) == 1 {
-							for _, coef := range v.T {
-								okLen = coef == 8
-							}
-						}
-					}
-				}
-			}
-			if cal.Name() == "cf" && okLen {
-				okCf = true
-			}
-		}
-	}
-	r.Check(okLen && okCf, "PAD-LENGTH", key, p.Pos(fn.Pos()), "the 64-bit big-endian bit length (byte length * 8) is stored at x[56:64] and followed by a compression")
-}
